@@ -75,22 +75,25 @@ CLAIMED = {
         note=BASE + 'That ANTLR reports every syntax error to the listener is assumed. The parse-tree walk is bounded only. Known finding C04_comment_line (lexer of the dependency).'),
     'C05': dict(category='other', design_ref='DESIGN.md section 4 C05, section 9',
         text='Proved for every string (any characters): unquote(safename(s)) == s -- what the JSON writer does to a name the reader undoes -- with the exact '
-             'shape of both functions; writer purity. Bounded: 3 write/read cycles with byte-identical text and parse_json == transform over random models '
+             'shape of both functions; proved for every constraint tree of the format (names, NOT, the seven binary logical operators; any nesting): '
+             'get_ctc_info returns exactly the document the format defines (enc), parse_ast_constraint returns on such a document exactly the tree the '
+             'format defines (dec), and reading back what was written gives the same tree (round-trip theorem by structural induction over the two '
+             'contracts); writer purity. Bounded: 3 write/read cycles with byte-identical text and parse_json == transform over random models '
              'with all relation kinds, abstract flags, nested attribute values, named constraints over all eight operators, hostile names.',
-        note=BASE + 'Tree and constraint walks over nested dict documents are bounded only. json library assumed (loads(dumps(j)) == j).'),
+        note=BASE + 'The feature-tree walks over nested dict documents are bounded only. JSON objects of the constraint sub-format are modelled as document nodes (doc_view); safename / unquote are used as mathematical functions known through their contracts and the quoting lemma. json library assumed (loads(dumps(j)) == j).'),
     'C06': dict(category='other', design_ref='DESIGN.md section 4 C06, section 9',
         text='Deductive part: writer purity (effect analysis). Bounded: 4 cycles over random AFM-fragment models (WORD names incl. keyword-embedding words, '
              'several relations of every cardinality per parent, constraints over not/and/or/implies/iff/requires/excludes up to depth 4, integer-range and '
              'enumerated attributes), relations compared as bags per parent.',
         note=BASE + 'Everything except purity is bounded. ANTLR AFM front end assumed.'),
     'C07': dict(category='other', design_ref='DESIGN.md section 4 C07, section 9',
-        text='Deductive part: writer purity (effect analysis); reader side of the constraint round trip: _parse_rule returns, for every rule element, a tree with the truth value the format gives the element (contract shared with C09). Bounded: 4 cycles over random FeatureIDE-fragment models with 0-3 constraints incl. single '
+        text='Deductive part: writer purity (effect analysis); writer stage 1 (_get_ctc_info: constraint tree -> nested rule dicts): for every logical tree without XOR the document has the arities of the format and the truth value of the tree (requires as imp, excludes as imp(a, not b)); reader side: _parse_rule returns, for every rule element, a tree with the truth value the format gives the element (contract shared with C09). Bounded: 4 cycles over random FeatureIDE-fragment models with 0-3 constraints incl. single '
              'literals and hostile names; text identical from the second write on (iff is read as two implications).',
-        note=BASE + 'The writer walk (_get_ctc_info builds elements through ElementTree.SubElement) and the feature-tree walks are bounded only. ElementTree / minidom assumed; Element modelled as a value.'),
+        note=BASE + 'Writer stage 2 (_create_elem_constraint: dicts -> Elements through ElementTree.SubElement, mutation of the parent) and the feature-tree walks are bounded only, so the round trip as a whole is bounded. ElementTree / minidom assumed; Element modelled as a value.'),
     'C08': dict(category='other', design_ref='DESIGN.md section 4 C08, section 9',
-        text='Deductive part: writer purity (effect analysis). Bounded: 3 cycles with byte-identical text over random Glencoe-fragment models (solitary children, or '
+        text='Deductive part: writer purity (effect analysis); for every logical constraint tree: _get_ctc_info gives a well-formed term document with the truth value of the tree, _parse_ast_constraint gives on a well-formed (binary) term document a library-form tree with the truth value the format defines (names looked up in the features mapping), and reading back what was written is logically equivalent to the original (theorem over the two contracts, features mapping with id == name as the writer produces it). Bounded: 3 cycles with byte-identical text over random Glencoe-fragment models (solitary children, or '
              'one ALT/OR/MUTEX/[a,b] group with mandatory companions), constraints over all eight operators with distinct names, hostile names.',
-        note=BASE + 'Everything except purity is bounded. json library assumed.'),
+        note=BASE + 'The feature-tree walks are bounded only. The features mapping is an opaque value whose items are uninterpreted functions of (mapping, key); names read from it are assumed to be strings. json library assumed.'),
     'C09': dict(category='other', design_ref='DESIGN.md section 4 C09, section 9',
         text='Proved for every FeatureIDE rule element (any nesting, any number of operands; the document is an element tree value): '
              '_parse_rule returns a tree in the library form whose truth value under every assignment is the one the format gives the element '
